@@ -18,7 +18,7 @@ def generate(rng, tier):
     cases = []
     thorough = tier == "thorough"
     sp = E.base_spec()
-    sizes = set([0, 1, 5, 6, 7, 8, 9, 126, 127, 128, 4095, 4096, 4097, 65535, 65536, 65537, 69999, 70000, 70001, 10 ** 6, 4 * 10 ** 9 - 1 + 2, 4 * 10 ** 9 + 1,
+    sizes = set([0, 1, 4, 5, 6, 7, 8, 9, 126, 127, 128, 4095, 4096, 4097, 65535, 65536, 65537, 69999, 70000, 70001, 10 ** 6, 4 * 10 ** 9 - 1 + 2, 4 * 10 ** 9 + 1,
                  (1 << 32) - 1, 1 << 32, (1 << 35) + 5, (1 << 49) - 2, (1 << 56) - 2])
     for w in range(1, 9):
         for d in (-2, -3):
@@ -109,6 +109,11 @@ def oracle(case, outs):
             return "declared size above the limit: unexpected first error %s" % errs[0]
         if errs[0].startswith("E:eof:") and errs[0].split(":")[4] != "-":
             return "a payload read was attempted for a declared size above the limit: %s  [%s]" % (errs[0][:100], case.lines[0][-200:])
+    if m["size"] is not None and m["size"] <= m["limit"]:
+        # an element WITHIN the limit (the limit itself included) is never refused with the size error
+        for t in out.split(" "):
+            if t.startswith("E:size:") and t.split(":")[-1] == str(m["size"]):
+                return "declared size %d is within the limit %d but was rejected with the size error: %s -> %s" % (m["size"], m["limit"], case.lines[0][-200:], out[:300])
     return None
 
 
